@@ -60,7 +60,32 @@ def _mdam(env):
     return MDAMPolicy(env_name=env.name, embed_dim=16, num_encoder_layers=1, num_heads=2)
 
 
-FACTORIES = dict(am=_am, am_inst=_am_inst, symnco=_symnco, ham=_ham, ptrnet=_ptrnet, matnet=_matnet, polynet=_polynet, l2d=_l2d, mdam=_mdam)
+class _HeatmapEncoder(torch.nn.Module):
+    """A weight-free 'policy': heat-map logits are a fixed function of the coordinates (used with the library's
+    NonAutoregressiveDecoder), so that decoding strategies can be exercised on environments the attention model
+    does not support in that mode (e.g. beam search on mTSP, whose reward lives in the episode state)."""
+
+    def __init__(self, seed=0):
+        super().__init__()
+        self.seed = seed
+        self.dummy = torch.nn.Parameter(torch.zeros(1))
+
+    def forward(self, td):
+        locs = td["locs"]
+        dist = torch.cdist(locs, locs)
+        n = locs.shape[1]
+        wobble = torch.sin((37.0 + self.seed) * torch.arange(n * n, dtype=torch.float32)).view(n, n)
+        return -3.0 * dist + wobble, None
+
+
+def _heatmap(env):
+    from rl4co.models.common.constructive.base import ConstructivePolicy
+    from rl4co.models.common.constructive.nonautoregressive.decoder import NonAutoregressiveDecoder
+
+    return ConstructivePolicy(encoder=_HeatmapEncoder(), decoder=NonAutoregressiveDecoder(), env_name=env.name)
+
+
+FACTORIES = dict(heatmap=_heatmap, am=_am, am_inst=_am_inst, symnco=_symnco, ham=_ham, ptrnet=_ptrnet, matnet=_matnet, polynet=_polynet, l2d=_l2d, mdam=_mdam)
 
 # (policy key, spec key, flags).  follows_base: forward is ConstructivePolicy.forward (decoder protocol usable by the harness)
 PAIRS = [
